@@ -69,7 +69,10 @@ def gen_case(r, k, nmol=None, nt=None, tensor=None):
     return {"kind": "spec", "mult": mult, "nmol": nmol, "nt": nt, "dt": dt, "rwa": e0, "energies": energies, "dipoles": dipoles,
             "geometry": geometry, "positions": positions, "couplings": couplings, "reorgs": reorgs, "cortime": cortime,
             "T": 300.0, "tensor": bool(tensor), "scale": r.choice([2.0, 0.5, 3.0, -1.5]), "perm": perm,
-            "rot": [r.randint(1, 10 ** 6), r.choice([1, -1])], "prequery": pre}
+            "rot": [r.randint(1, 10 ** 6), r.choice([1, -1])], "prequery": pre,
+            # weak couplings split off into the Hamiltonian's remainder coupling: by the user (plain cases) or by the combined
+            # Redfield-Foerster tensor whose effective Hamiltonian is supplied (tensor cases)
+            "remainder": (("cRF" if tensor else "removed") if (nmol >= 2 and k % 4 == 3) else None)}
 
 
 def rotation(seed, det):
@@ -140,7 +143,27 @@ def build(c, dip_scale=1.0, rot=None, perm=None):
                 # couplings belong to the molecules, not to their position in the list
                 ag.set_resonance_coupling(order.index(i), order.index(j), val)
     ag.build(mult=c.get("mult", 1))
+    if c.get("remainder") == "removed":
+        # a system Hamiltonian whose weak couplings were split off into its remainder coupling (Hamiltonian.remove_cutoff_coupling):
+        # the aggregate as given is the one with the remaining couplings
+        H = ag.get_Hamiltonian()
+        H.remove_cutoff_coupling(coupling_cut(H))
     return time, ag, cfs
+
+
+def coupling_cut(H):
+    """a cut-off (internal units) between the two smallest distinct non-zero couplings, or above the only one"""
+    vals = sorted(set(round(abs(float(H.data[i, j])), 12) for i in range(H.dim) for j in range(i + 1, H.dim)) - {0.0})
+    if not vals:
+        return 1e-6
+    return 0.5 * (vals[0] + vals[1]) if len(vals) > 1 else 2.0 * vals[0]
+
+
+def tensor_of(c, time, system):
+    """the relaxation tensor and effective Hamiltonian a tensor case supplies to the calculator"""
+    if c.get("remainder") == "cRF":
+        return system.get_RelaxationTensor(time, relaxation_theory="cRF", coupling_cutoff=coupling_cut(system.get_Hamiltonian()))
+    return system.get_RelaxationTensor(time, relaxation_theory="stR")
 
 
 def prequery(c, system):
@@ -172,8 +195,9 @@ def calculate(c, time, system, with_tensor):
     prequery(c, system)
     RR = ham = None
     if with_tensor:
-        RR, ham = system.get_RelaxationTensor(time, relaxation_theory="stR")
+        RR, ham = tensor_of(c, time, system)
         ac = qr.AbsSpectrumCalculator(time, system=system, relaxation_tensor=RR, effective_hamiltonian=ham)
+        ac._verif_heff = (ham, numpy.array(ham.data).copy())
     else:
         ac = qr.AbsSpectrumCalculator(time, system=system)
     with qr.energy_units("1/cm"):
@@ -229,7 +253,8 @@ def run_case(c, chk, spec_items, spec_meta, grid_items, grid_meta):
     import numpy
     import quantarhei as qr
     tag = "%s:%s:%s" % ("molecule" if c["nmol"] == 1 else "aggregate%d%s" % (c["nmol"], "" if c.get("mult", 1) == 1 else "_mult2"),
-                        "tensor" if c["tensor"] else "plain", "even" if c["nt"] % 2 == 0 else "odd")
+                        ("tensor" if c["tensor"] else "plain") + ("" if not c.get("remainder") else "_" + c["remainder"]),
+                        "even" if c["nt"] % 2 == 0 else "odd")
     chk.count("spec:" + tag)
     time, system, cfs = build(c)
     agg = c["nmol"] > 1
@@ -261,9 +286,13 @@ def run_case(c, chk, spec_items, spec_meta, grid_items, grid_meta):
     if numpy.max(numpy.abs(D1 - D0)) > 1e-12 * max(1.0, numpy.max(numpy.abs(D0))):
         chk.violation("purity:dipole:" + tag, "calculate() changed the dipole operator by %g" % numpy.max(numpy.abs(D1 - D0)), "monitor", c)
     if c["tensor"]:
+        heff, heff0 = ac._verif_heff
+        if numpy.max(numpy.abs(heff.data - heff0)) > 1e-12 * max(1.0, numpy.max(numpy.abs(heff0))):
+            chk.violation("purity:effective_hamiltonian:" + tag, "calculate() changed the supplied effective Hamiltonian by %g"
+                          % numpy.max(numpy.abs(heff.data - heff0)), "monitor", c)
         # the tensor as it was before the calculation: rebuild it on an identical system
         t2, s2, _ = build(c)
-        R_ref, _h = s2.get_RelaxationTensor(t2, relaxation_theory="stR")
+        R_ref, _h = tensor_of(c, t2, s2)
         dev = numpy.max(numpy.abs(RR.data - R_ref.data))
         if dev > 1e-10 * max(1e-30, numpy.max(numpy.abs(R_ref.data))):
             chk.violation("purity:tensor:" + tag, "calculate() changed the supplied relaxation tensor by %g (max element %g)"
